@@ -6,6 +6,12 @@ props = [json.loads(l) for l in open(os.path.join(V, "properties.jsonl"))]
 
 # id -> (technique, level text, level note, design ref)
 CLAIMS = {
+ "C05": ("complete enumeration of regular tables (all colspan tilings x all content classes) x widths on the real code; output parsed into a character-cell grid and checked against the box-drawing invariants",
+         "Every regular table of the listed shapes, with every colspan tiling of every row and every combination of 5 content classes, is rendered at every width; the output is mapped to display cells and must be either a well-formed stacked table or a side-by-side table with equal line widths, rule first/last, bars on every line of a band and junction glyphs that match the bars above and below at every position.",
+         "Shapes up to 2x3 quick, up to 3x2 / 2x4 thorough; widths <=30/<=60. Known finding KF-C05-1 (ragged line with a zero-width column inside a colspan, pinned by test_colspan_large) recognised by a fixed classifier.", "DESIGN.md §4 C05"),
+ "C06": ("complete enumeration of regular tables with one unique token per cell x widths on the real code; tokens located in the parsed grid and compared with the source grid",
+         "Same universe as C05 with one letter per cell: every token must lie in the band of its row and in the segment between the bars of the columns it spans, cell and row order must equal source order, column boundaries must agree across rows, every non-empty cell must appear and no line may exceed the table's width.",
+         "Known finding KF-C06-1 (same root cause as KF-C05-1) recognised by a fixed classifier.", "DESIGN.md §4 C06"),
  "C07": ("bounded exhaustive enumeration of wrapper blocks x contents x widths x configurations on the real code; compositionality relation (outer rendering = prefixes + separately rendered contents) with reference list numbering",
          "For every wrapper (quote, bullet list, headings, definition, ordered lists over 11 start values and up to 15 items) around every content document of the grammar, at every width and configuration, the outer rendering produced by the real code must equal the concatenation of prefix + the real code's rendering of each item's content at width minus prefix width; markers and padding come from a 10-line reference.",
          "Contents: valid grammar documents depth <=1 quick / <=2 thorough (prefixes stack up to 3/4 deep); footnotes disabled.", "DESIGN.md §4 C07"),
